@@ -68,29 +68,29 @@ Example C04_fixed_point_example :
   exists t f, save toy_sig 0 toy_font = Ok t /\ load toy_sig t = Ok f /\ font_valid toy_sig f.
 Proof. exact fixed_point_example. Qed.
 
-(** ---------- with the REAL glif codec plugged in (Model/FontReal.v) ----------
+(** ---------- with the REAL part models (glif codec, font info, groups / kerning maps and validator) plugged in (Model/FontReal.v) ----------
     The real glif reader is not closed on [wf_glyph] (it returns glyphs with libs, which the proved
     round trip of C02 does not cover yet), so the real instance of the fixed point is conditional on
     the loaded font being valid; what the reader does guarantee for every loaded glyph is proved
     separately ([C04_loaded_glyphs_obey_rules_real], from C12_returned_glyph_rules).
-    Remaining hypotheses: [base_laws B], [L1_glif] (see Props/C01.v, C01_roundtrip_real) and
+    Remaining hypotheses: [base_laws B PG PK], [L1_glif] (see Props/C01.v, C01_roundtrip_real) and
     [font_valid f] for the loaded font (to be reduced to: its glyphs are lib-free and canonical, once
     the base parts are closed — C13_load_only_valid, C15_load_returns_only_ok). *)
-Theorem C04_fixed_point_real : forall pf ff ff3 fi fh (B : sig),
-  L1_glif pf ff ff3 fh -> base_laws B ->
-  forall o (t : tree (real_sig pf ff ff3 fi fh B)) (f : font (real_sig pf ff ff3 fi fh B)),
-  load (real_sig pf ff ff3 fi fh B) t = Ok f -> font_valid (real_sig pf ff ff3 fi fh B) f ->
-  exists t', save (real_sig pf ff ff3 fi fh B) o f = Ok t' /\
-             exists f', load (real_sig pf ff ff3 fi fh B) t' = Ok f' /\ font_equiv (real_sig pf ff ff3 fi fh B) f f'.
+Theorem C04_fixed_point_real : forall pf ff ff3 fi fh (B : sig) PG PK,
+  L1_glif pf ff ff3 fh -> base_laws B PG PK ->
+  forall o (t : tree (real_sig pf ff ff3 fi fh B PG PK)) (f : font (real_sig pf ff ff3 fi fh B PG PK)),
+  load (real_sig pf ff ff3 fi fh B PG PK) t = Ok f -> font_valid (real_sig pf ff ff3 fi fh B PG PK) f ->
+  exists t', save (real_sig pf ff ff3 fi fh B PG PK) o f = Ok t' /\
+             exists f', load (real_sig pf ff ff3 fi fh B PG PK) t' = Ok f' /\ font_equiv (real_sig pf ff ff3 fi fh B PG PK) f f'.
 Proof.
-  intros pf ff ff3 fi fh B L HB o t f _ Hv.
-  destruct (roundtrip_real pf ff ff3 fi fh B L HB o f Hv) as (t' & H1 & _ & H2). eauto.
+  intros pf ff ff3 fi fh B PG PK L HB o t f _ Hv.
+  destruct (roundtrip_real pf ff ff3 fi fh B PG PK L HB o f Hv) as (t' & H1 & _ & H2). eauto.
 Qed.
 (** every glyph of a font loaded through the real glif reader is a parsed glyph — it obeys the
     glyph rules of C12 and holds no public.objectLibs — renamed to its key of contents.plist *)
-Theorem C04_loaded_glyphs_obey_rules_real : forall pf ff ff3 fi fh (B : sig)
-  (t : tree (real_sig pf ff ff3 fi fh B)) (f : font (real_sig pf ff ff3 fi fh B)),
-  load (real_sig pf ff ff3 fi fh B) t = Ok f ->
+Theorem C04_loaded_glyphs_obey_rules_real : forall pf ff ff3 fi fh (B : sig) PG PK
+  (t : tree (real_sig pf ff ff3 fi fh B PG PK)) (f : font (real_sig pf ff ff3 fi fh B PG PK)),
+  load (real_sig pf ff ff3 fi fh B PG PK) t = Ok f ->
   Forall (fun l => Forall (fun e : str * str * glyph =>
             exists g, glyph_rules g /\ lookup objlibs_key (glib g) = None /\ snd e = set_gname (fst (fst e)) g)
             (l_glyphs l)) (f_layers _ f).
